@@ -37,6 +37,13 @@ func main() {
 	q("DELETE FROM t WHERE id = 2")
 	q("SELECT id, a FROM t")
 	q("SELECT * FROM t_ft_0_FTS_DOC_COUNT")
+	// WHERE form on a keyed table: one delivery per matched unique search word
+	q("CREATE TABLE w (id INT PRIMARY KEY, a TEXT, FULLTEXT KEY ft (a))")
+	q("INSERT INTO w VALUES (1, 'sun pie'), (2, 'sun'), (3, 'moon')")
+	q("SELECT id FROM w WHERE MATCH(a) AGAINST ('sun pie')")
+	q("SELECT COUNT(*) FROM w WHERE MATCH(a) AGAINST ('sun pie')")
+	q("SELECT id FROM (SELECT id, MATCH(a) AGAINST ('sun pie') AS rel FROM w) x WHERE rel > 0")
+	q("SELECT id FROM w WHERE MATCH(a) AGAINST ('sun pie') AND id > 0")
 	// keyless duplicates
 	q("CREATE TABLE k (id INT, a TEXT, FULLTEXT KEY ft (a))")
 	q("INSERT INTO k VALUES (5, 'don''t')")
